@@ -929,44 +929,98 @@ fn main() {
         }
     }
 
-    // ---- 3d. the client TSIG wrapper (net/client/tsig.rs) end to end against an in-process server side
+    // ---- 3d. the client TSIG wrapper (net/client/tsig.rs), single and multi response paths, against
+    //          scripted upstreams: every response must pass TsigClient::answer, a stream must not end unsigned
     {
-        use domain::net::client::request::{ComposeRequest, Error, GetResponse, RequestMessage, SendRequest};
+        use domain::net::client::request::{ComposeRequest, ComposeRequestMulti, Error, GetResponse, GetResponseMulti,
+            RequestMessage, RequestMessageMulti, SendRequest, SendRequestMulti};
         use domain::net::client::tsig::Connection;
         use std::sync::{Arc, Mutex};
+        /// one scripted response
+        #[derive(Clone, Copy, Debug)]
+        struct Step { signed: bool, rcode: u8, answers: u8, extra_additional: bool, tamper: bool }
+        #[derive(Default)]
+        struct Log { request: Vec<u8>, sent: Vec<Vec<u8>> }
+        /// build the scripted responses for the request that went out (reference signer, RFC 8945 5.3.1)
+        fn responses(c: &Sha2Consts, k: &KeySpec, wire: &[u8], script: &[Step], multi: bool) -> Option<(Vec<u8>, u64, Vec<Vec<u8>>)> {
+            let rr_len = k.name.len() + 10 + k.alg.name_wire().len() + 16 + k.sign_len();
+            if wire.len() < rr_len + 12 { return None; }
+            let mut pre = wire[..wire.len() - rr_len].to_vec();
+            let ar = u16::from_be_bytes([pre[10], pre[11]]).wrapping_sub(1); pre[10..12].copy_from_slice(&ar.to_be_bytes());
+            let tpos = wire.len() - rr_len + k.name.len() + 10 + k.alg.name_wire().len();
+            let mut tb = [0u8; 8]; tb[2..].copy_from_slice(&wire[tpos..tpos + 6]);
+            let t = u64::from_be_bytes(tb);
+            let reqmac = wire[wire.len() - 6 - k.sign_len()..wire.len() - 6].to_vec();
+            // question of the request (ends where its additional section would begin; requests here have no records but OPT-less)
+            let qend = { let m = Message::from_octets(pre.clone()).ok()?; let qs = m.question(); let mut q = qs; for _ in q.by_ref() {} q.pos() };
+            let mut prior = reqmac; let mut pending: Vec<u8> = vec![]; let mut out = vec![];
+            for (i, st) in script.iter().enumerate() {
+                let mut m = vec![0u8; 12];
+                m[0..2].copy_from_slice(&pre[0..2]); m[2] = 0x84; m[3] = st.rcode & 0x0f; m[4..6].copy_from_slice(&pre[4..6]);
+                m.extend_from_slice(&pre[12..qend]);
+                for j in 0..st.answers { m.extend_from_slice(b"\xc0\x0c\x00\x01\x00\x01\x00\x00\x00\x3c\x00\x04\x0a\x00"); m.push(i as u8); m.push(j); }
+                m[7] = st.answers;
+                if st.extra_additional { m.extend_from_slice(b"\x00\x00\x29\x04\xd0\x00\x00\x00\x00\x00\x00"); m[11] = 1; }
+                let w = if st.signed {
+                    let mut pfx = with_len(&prior); pfx.extend_from_slice(&pending);
+                    let (mac, mut w) = rfc_sign(c, k, &pfx, &m, t, 300, 0, &[], multi && i > 0);
+                    prior = mac; pending.clear();
+                    if st.tamper { let at = m.len() - 1; w[at] ^= 0x40; }
+                    w
+                } else { pending.extend_from_slice(&m); m.clone() };
+                out.push(w);
+            }
+            Some((pre, t, out))
+        }
         #[derive(Debug)]
-        struct Get { resp: Option<Result<Message<bytes::Bytes>, Error>> }
-        impl GetResponse for Get {
+        struct Get1 { resp: Option<Result<Message<bytes::Bytes>, Error>> }
+        impl GetResponse for Get1 {
             fn get_response(&mut self) -> std::pin::Pin<Box<dyn std::future::Future<Output = Result<Message<bytes::Bytes>, Error>> + Send + Sync + '_>> {
                 Box::pin(std::future::ready(self.resp.take().unwrap_or(Err(Error::ConnectionClosed))))
             }
         }
-        struct Upstream { key: Key, mode: u8, log: Arc<Mutex<(Vec<u8>, Vec<u8>, String)>> }
-        impl<CR: ComposeRequest + std::fmt::Debug + Send + Sync + 'static> SendRequest<CR> for Upstream {
-            fn send_request(&self, request_msg: CR) -> Box<dyn GetResponse + Send + Sync> {
-                // what goes on the wire: the wrapper's request message signs while composing
-                let Ok(wire) = request_msg.to_vec() else { return Box::new(Get { resp: Some(Err(Error::ConnectionClosed)) }) };
-                let mut log = self.log.lock().unwrap();
-                log.0 = wire.clone();
-                let mut m = Message::from_octets(wire).unwrap();
-                let st = match ServerTransaction::request(&&self.key, &mut m, Time48::now()) {
-                    Ok(Some(st)) => st,
-                    Ok(None) => { log.2 = "server: request unsigned".into(); return Box::new(Get { resp: Some(Err(Error::ConnectionClosed)) }) }
-                    Err(e) => { log.2 = format!("server: {}", e.error()); return Box::new(Get { resp: Some(Err(Error::ConnectionClosed)) }) }
-                };
-                let b = MessageBuilder::new_vec();
-                let mut a = b.start_answer(&m, Rcode::NOERROR).unwrap();
-                if let Some(q) = m.first_question() { a.push((q.qname(), Class::IN, Ttl::from_secs(9), A::from_octets(198, 51, 100, 1))).unwrap(); }
-                let mut ad = a.additional();
-                log.1 = ad.as_slice().to_vec();
-                if self.mode != 2 { st.answer(&mut ad, Time48::now()).unwrap(); }
-                let mut resp = ad.finish();
-                if self.mode == 1 { let n = log.1.len(); resp[n - 1] ^= 0x01; }
-                Box::new(Get { resp: Some(Ok(Message::from_octets(bytes::Bytes::from(resp)).unwrap())) })
+        #[derive(Debug)]
+        struct GetN { resps: std::collections::VecDeque<Vec<u8>> }
+        impl GetResponseMulti for GetN {
+            fn get_response(&mut self) -> std::pin::Pin<Box<dyn std::future::Future<Output = Result<Option<Message<bytes::Bytes>>, Error>> + Send + Sync + '_>> {
+                let r = self.resps.pop_front().map(|w| Message::from_octets(bytes::Bytes::from(w)).unwrap());
+                Box::pin(std::future::ready(Ok(r)))
             }
         }
+        struct Up { k: KeySpec, c: Arc<Sha2Consts>, script: Vec<Step>, log: Arc<Mutex<Log>> }
+        impl<CR: ComposeRequest + std::fmt::Debug + Send + Sync + 'static> SendRequest<CR> for Up {
+            fn send_request(&self, request_msg: CR) -> Box<dyn GetResponse + Send + Sync> {
+                let Ok(wire) = request_msg.to_vec() else { return Box::new(Get1 { resp: None }) };
+                let mut log = self.log.lock().unwrap();
+                log.request = wire.clone();
+                match responses(&self.c, &self.k, &wire, &self.script, false) {
+                    Some((_, _, mut rs)) => { log.sent = rs.clone(); Box::new(Get1 { resp: Some(Ok(Message::from_octets(bytes::Bytes::from(rs.remove(0))).unwrap())) }) }
+                    None => Box::new(Get1 { resp: None }),
+                }
+            }
+        }
+        struct UpN { k: KeySpec, c: Arc<Sha2Consts>, script: Vec<Step>, log: Arc<Mutex<Log>> }
+        impl<CR: ComposeRequestMulti + std::fmt::Debug + Send + Sync + 'static> SendRequestMulti<CR> for UpN {
+            fn send_request(&self, request_msg: CR) -> Box<dyn GetResponseMulti + Send + Sync> {
+                let Ok(m) = request_msg.to_message() else { return Box::new(GetN { resps: Default::default() }) };
+                let wire = m.as_slice().to_vec();
+                let mut log = self.log.lock().unwrap();
+                log.request = wire.clone();
+                match responses(&self.c, &self.k, &wire, &self.script, true) {
+                    Some((_, _, rs)) => { log.sent = rs.clone(); Box::new(GetN { resps: rs.into() }) }
+                    None => Box::new(GetN { resps: Default::default() }),
+                }
+            }
+        }
+        fn show(r: &Result<Option<Message<bytes::Bytes>>, Error>) -> String {
+            match r {
+                Ok(Some(m)) => format!("ok:{}", hex(m.as_slice())), Ok(None) => "end".into(),
+                Err(Error::Authentication(e)) => format!("Err {}", verr(e)), Err(e) => format!("Err other:{}", e),
+            }
+        }
+        let consts_arc = Arc::new(sha2_consts());
         let rt = tokio::runtime::Builder::new_current_thread().enable_all().build().unwrap();
-        let n = if thorough { 200 } else { 9 } * scale;
+        let n = if thorough { 400 } else { 28 } * scale;
         for it in 0..n {
             let mut r = r.fork();
             idx += 1; if !out.wants(idx) { continue; }
@@ -976,51 +1030,105 @@ fn main() {
             let sl = r.range(8, 40) as usize;
             let k = KeySpec { alg, secret: r.bytes(sl), name: b"\x06client\x03Key\x00".to_vec(), min: Some(lo), sign };
             let Ok(key) = k.lib() else { continue };
-            let id = r.u16();
-            // a request the wrapper accepts: deterministic retries, then skip-and-count
-            let mut found = None;
-            for _ in 0..8 {
-                let q = gen_message(&mut r, id, false);
-                let pre = q.as_slice().to_vec();
-                let Ok(qm) = Message::from_octets(pre.clone()) else { continue };
-                if qm.first_question().is_none() { continue; }
-                if let Ok(rm) = RequestMessage::new(qm) { found = Some((pre, rm)); break; }
-            }
-            let Some((pre, reqmsg)) = found else { out.count("client_wrapper_no_request_generated"); continue };
-            let mode = (it % 3) as u8; // 0 honest, 1 tampered answer, 2 unsigned answer
-            let case = format!("client_wrapper mode={} {} {}", mode, k.words(), hex(&pre));
-            out.begin(&case);
-            let log = Arc::new(Mutex::new((vec![], vec![], String::new())));
-            let conn = Connection::new(key.clone(), Upstream { key: key.clone(), mode, log: log.clone() });
+            let multi = it % 2 == 1;
+            // the request: one question; AXFR for the multi path
+            let qname = gen_name_wire(&mut r);
+            let mut qb = MessageBuilder::new_vec();
+            qb.header_mut().set_id(r.u16());
+            let mut qq = qb.question();
+            qq.push((name_from_wire(&qname), if multi { Rtype::AXFR } else { *r.pick(&[Rtype::A, Rtype::SOA, Rtype::TXT]) })).unwrap();
+            let qmsg = qq.into_message();
+            let rcodes = [0u8, 2, 3, 5, 9, 1];
+            let mk = |r: &mut Rng, signed: bool| Step { signed, rcode: if r.chance(1, 2) { 0 } else { *r.pick(&rcodes) }, answers: r.below(3) as u8, extra_additional: r.chance(1, 4), tamper: false };
+            let script: Vec<Step> = if !multi {
+                match (it / 2) % 7 {
+                    0 => vec![mk(&mut r, true)],
+                    1 => vec![Step { signed: false, rcode: 0, answers: 1, extra_additional: false, tamper: false }],
+                    // the bare unsigned error: error RCODE, nothing in the additional section
+                    2 => vec![Step { signed: false, rcode: *r.pick(&[1u8, 2, 3, 5, 9]), answers: 0, extra_additional: false, tamper: false }],
+                    3 => vec![Step { signed: false, rcode: *r.pick(&[2u8, 5]), answers: 0, extra_additional: true, tamper: false }],
+                    4 => vec![Step { signed: true, rcode: 0, answers: 1, extra_additional: false, tamper: true }],
+                    5 => vec![Step { signed: true, rcode: *r.pick(&[2u8, 3, 5]), answers: 0, extra_additional: false, tamper: false }],
+                    _ => vec![mk(&mut r, false)],
+                }
+            } else {
+                let len = match (it / 2) % 5 { 0 => r.range(100, 104) as usize, _ => r.range(1, 8) as usize };
+                let mut v = vec![];
+                for i in 0..len {
+                    let signed = match (it / 2) % 5 { 0 => i == 0, 1 => true, _ => i == 0 || r.chance(1, 2) };
+                    let mut st = mk(&mut r, signed);
+                    // bare unsigned errors in the middle and at the end of a stream
+                    if !signed && r.chance(1, 2) { st.rcode = *r.pick(&[2u8, 5, 9]); st.answers = 0; st.extra_additional = false; }
+                    if (it / 2) % 5 == 0 { st.answers = 0; st.extra_additional = false; st.rcode = if i % 2 == 0 { 2 } else { 0 }; }
+                    v.push(st);
+                }
+                if (it / 2) % 5 == 3 { if let Some(l) = v.last_mut() { l.signed = false; l.rcode = 5; l.answers = 0; l.extra_additional = false; } }
+                if (it / 2) % 5 == 4 && v.len() > 1 { let at = r.below(v.len() as u64) as usize; if v[at].signed { v[at].tamper = true; } }
+                v
+            };
+            let log = Arc::new(Mutex::new(Log::default()));
             let started = std::time::Instant::now();
-            let res = catch_mut(|| rt.block_on(async { let mut g = SendRequest::send_request(&conn, reqmsg); g.get_response().await }));
-            out.oracle_case(&case, true, "client_wrapper");
+            let case0 = format!("client_wrapper {} {} script={:?}", if multi { "multi" } else { "single" }, k.words(), script.iter().map(|s| (s.signed, s.rcode, s.answers, s.extra_additional, s.tamper)).collect::<Vec<_>>());
+            out.begin(&case0);
+            let results: Result<Vec<Result<Option<Message<bytes::Bytes>>, Error>>, String> = if !multi {
+                let conn = Connection::new(key.clone(), Up { k: k.clone(), c: consts_arc.clone(), script: script.clone(), log: log.clone() });
+                let Ok(reqmsg) = RequestMessage::new(qmsg) else { out.count("client_wrapper_no_request_generated"); continue };
+                catch_mut(|| rt.block_on(async { let mut g = SendRequest::send_request(&conn, reqmsg); vec![g.get_response().await.map(Some)] }))
+            } else {
+                let conn = Connection::new(key.clone(), UpN { k: k.clone(), c: consts_arc.clone(), script: script.clone(), log: log.clone() });
+                let Ok(reqmsg) = RequestMessageMulti::new(qmsg) else { out.count("client_wrapper_no_request_generated"); continue };
+                let nresp = script.len();
+                catch_mut(|| rt.block_on(async {
+                    let mut g = SendRequestMulti::send_request(&conn, reqmsg);
+                    let mut v = vec![];
+                    for _ in 0..nresp + 1 { v.push(g.get_response().await); }
+                    v
+                }))
+            };
             if started.elapsed().as_secs() > 100 { out.count("client_wrapper_slow_skipped"); continue; }
-            let (wire, apre, note) = log.lock().unwrap().clone();
-            let res = match res { Ok(r) => r, Err(p) => { out.check_c(false, "client_wrapper_panic", &case, &p); continue } };
-            if !note.is_empty() || wire.is_empty() { out.check_c(false, "client_wrapper_request_rejected", &case, &format!("{} request {}", note, hex(&wire))); continue; }
-            // the request on the wire carries the RFC 8945 MAC
-            let rr_len = k.name.len() + 10 + k.alg.name_wire().len() + 16 + k.sign_len();
-            if wire.len() > rr_len + 12 {
-                let mut p = wire[..wire.len() - rr_len].to_vec();
-                let ar = u16::from_be_bytes([p[10], p[11]]).wrapping_sub(1); p[10..12].copy_from_slice(&ar.to_be_bytes());
-                let tpos = wire.len() - rr_len + k.name.len() + 10 + k.alg.name_wire().len();
-                let mut tb = [0u8; 8]; tb[2..].copy_from_slice(&wire[tpos..tpos + 6]);
-                let fudge = u16::from_be_bytes([wire[tpos + 6], wire[tpos + 7]]);
-                let (_, want) = rfc_sign(&consts, &k, &[], &p, u64::from_be_bytes(tb), fudge, 0, &[], false);
-                out.check_c(wire == want, "client_wrapper_mac_rfc8945", &case, &format!("request {} reference {}", hex(&wire), hex(&want)));
-            } else { out.check_c(false, "client_wrapper_mac_rfc8945", &case, &format!("request without TSIG: {}", hex(&wire))); }
-            match mode {
-                0 => match &res {
-                    Ok(m) => {
+            let results = match results { Ok(v) => v, Err(p) => { out.check_c(false, "client_wrapper_panic", &case0, &p); continue } };
+            let (wire, sent) = { let l = log.lock().unwrap(); (l.request.clone(), l.sent.clone()) };
+            let Some((pre, t, _)) = responses(&consts, &k, &wire, &[], multi) else { out.check_c(false, "client_wrapper_request_unsigned", &case0, &hex(&wire)); continue };
+            if sent.len() != script.len() { out.count("client_wrapper_script_not_built"); continue; }
+            // T2: what the wrapper put on the wire, and what it made of the responses
+            let ccase = format!("creq {} {} {} 300", k.words(), hex(&pre), t);
+            out.case(&ccase, &format!("Ok {}", hex(&wire)), true, "creq_wrapper");
+            let (_, want) = rfc_sign(&consts, &k, &[], &pre, t, 300, 0, &[], false);
+            out.check_c(wire == want, "client_wrapper_mac_rfc8945", &ccase, &format!("request {} reference {}", hex(&wire), hex(&want)));
+            let wcase = format!("wrap {} {} {} {} 300 {} {}", if multi { "multi" } else { "single" }, k.words(), hex(&pre), t, t, sent.iter().map(|w| hex(w)).collect::<Vec<_>>().join(" "));
+            out.case(&wcase, &results.iter().map(show).collect::<Vec<_>>().join(","), true, if multi { "wrap_multi" } else { "wrap_single" });
+            // oracle, from the script alone
+            let mut run = 0u32; let mut dead = false;
+            for (i, st) in script.iter().enumerate() {
+                if dead { break; }
+                let res = &results[i];
+                if st.signed && !st.tamper {
+                    let restored = match res { Ok(Some(m)) => { let rr_len = k.name.len() + 10 + k.alg.name_wire().len() + 16 + k.sign_len(); let p = sent[i].len() - rr_len;
                         let has_tsig = m.additional().map(|sec| sec.flatten().any(|rr| rr.rtype() == Rtype::TSIG)).unwrap_or(true);
-                        out.check_c(!has_tsig && m.as_slice().len() >= apre.len() && m.as_slice()[..apre.len()] == apre[..], "client_wrapper_answer_not_restored", &case, &format!("got {} server built {}", hex(m.as_slice()), hex(&apre)));
-                    }
-                    Err(e) => out.check_c(false, "client_wrapper_exchange_rejected", &case, &format!("{}", e)),
-                },
-                1 => out.check_c(matches!(&res, Err(Error::Authentication(ValidationError::BadSig))), "client_wrapper_tampered_accepted", &case, &format!("{:?}", res.as_ref().map(|m| hex(m.as_slice())).map_err(|e| e.to_string()))),
-                _ => out.check_c(matches!(&res, Err(Error::Authentication(ValidationError::ServerUnsigned))), "client_wrapper_unsigned_accepted", &case, &format!("{:?}", res.as_ref().map(|m| hex(m.as_slice())).map_err(|e| e.to_string()))),
+                        !has_tsig && m.as_slice().len() >= p && m.as_slice()[12..p] == sent[i][12..p] && m.header().rcode().to_int() == st.rcode } _ => false };
+                    out.check_c(restored, if multi { "client_wrapper_stream_rejected" } else { "client_wrapper_exchange_rejected" }, &wcase, &format!("response {}: {}", i + 1, show(res)));
+                    run = 0;
+                    if !restored { dead = true; }
+                } else if st.signed {
+                    out.check_c(matches!(res, Err(Error::Authentication(ValidationError::BadSig))), "client_wrapper_tampered_accepted", &wcase, &format!("response {}: {}", i + 1, show(res)));
+                    dead = true;
+                } else if !multi || i == 0 {
+                    // RFC 8945 5.3: an unsigned response to a signed request is rejected, whatever its RCODE or sections
+                    out.check_c(matches!(res, Err(Error::Authentication(ValidationError::ServerUnsigned))), "client_wrapper_unsigned_accepted", &wcase,
+                        &format!("response {} (rcode {}, {} answers, additional {}): {}", i + 1, st.rcode, st.answers, st.extra_additional, show(res)));
+                    dead = true;
+                } else {
+                    run += 1;
+                    if run <= 99 { out.check_c(matches!(res, Ok(Some(_))), "client_wrapper_unsigned_run", &wcase, &format!("unsigned message {} of a run: {}", run, show(res))); if !matches!(res, Ok(Some(_))) { dead = true; } }
+                    else { out.check_c(matches!(res, Err(Error::Authentication(ValidationError::TooManyUnsigned))), "client_wrapper_unsigned_run", &wcase, &format!("unsigned message {} of a run accepted: {}", run, show(res))); dead = true; }
+                }
             }
+            if multi && !dead {
+                let end = &results[script.len()];
+                if run == 0 { out.check_c(matches!(end, Ok(None)), "client_wrapper_stream_end", &wcase, &show(end)); }
+                else { out.check_c(matches!(end, Err(Error::Authentication(ValidationError::TooManyUnsigned))), "client_wrapper_stream_ends_unsigned", &wcase, &format!("stream ended after {} unsigned message(s): {}", run, show(end))); }
+            }
+            out.oracle_case(&case0, true, if multi { "client_wrapper_multi" } else { "client_wrapper_single" });
         }
     }
 
